@@ -153,6 +153,7 @@ type c19Net struct {
 	dead    bool      // black-holed forever
 
 	trace []c19TraceEnt
+	dbg   func(string) // development aid
 
 	// Monitor hooks (all called on the controller goroutine at a quiescent point).
 	onWrite   func(d *c19Dgram)                                // every datagram written, in canonical order
@@ -204,6 +205,9 @@ func (n *c19Net) collect() {
 
 func (n *c19Net) deliver(d *c19Dgram, size int, from netip.AddrPort, act string) {
 	n.trace = append(n.trace, c19TraceEnt{d.idx, d.dir, size, act})
+	if n.dbg != nil {
+		n.dbg(fmt.Sprintf("deliver idx=%d dir=%d size=%d %s", d.idx, d.dir, size, act))
+	}
 	if n.onDeliver != nil {
 		n.onDeliver(d, size, from)
 	}
